@@ -210,6 +210,13 @@ class Controller(object):
             return self.send_error(mid, cid, msg, str(e), cast=cast,
                                    errno=errors.MESSAGE_ERROR)
         except ConflictError as e:
+            if cid is None and not self.arbiter._restarting and \
+                    not self.stream.closed():
+                # a command coming from a signal handler (quit, reload) has
+                # nobody to report the conflict to: run it once the command
+                # in progress is over instead of dropping it
+                self.loop.call_later(0.1, self.dispatch, job)
+                return
             # conflicts between two commands, sending error...
             return self.send_error(mid, cid, msg, str(e), cast=cast,
                                    errno=errors.COMMAND_ERROR)
